@@ -12,7 +12,7 @@ import traceback
 from vsim import seams, simcache
 from vsim.core import EventLog, SimClock, mkrng, stable_hash
 from vsim.fs import World
-from vsim.sched import Scheduler, SchedulerAbort, SimEvent, SimLock, make_tracer
+from vsim.sched import Scheduler, SchedulerAbort, SimEvent, SimLock, ThreadingShim, make_tracer
 
 NAME = "c16_threads"
 PROPERTY = "C16"
@@ -346,11 +346,21 @@ class Harness:
         if self.lenient and replay is not None:
             # a hand-edited (shrunk) schedule: past its end / on a non-runnable name fall back to "keep running"
             self.sched.replay_lenient = True
+        import threading as _real_threading
+
+        # locks created by mako code from now on are scheduler-visible
+        for _m in (mako.lookup, mako.util, mako.template):
+            if _m.__dict__.get("threading") is _real_threading:
+                _m.threading = ThreadingShim(self.sched, _real_threading)
         self.lookup = mako.lookup.TemplateLookup(
             directories=[self.d0], module_directory=self.moddir, filesystem_checks=cfg["fs_checks"],
             collection_size=cfg["collection_size"], cache_impl="simdict")
-        self.mutex = SimLock(self.sched, "lookup._mutex")
-        self.lookup._mutex = self.mutex
+        if isinstance(getattr(self.lookup, "_mutex", None), SimLock):
+            self.mutex = self.lookup._mutex
+            self.mutex.name = "lookup._mutex"
+        else:
+            self.mutex = SimLock(self.sched, "lookup._mutex")
+            self.lookup._mutex = self.mutex
         self.cons = {}
         self.cons_active = 0
         self.events = {}
